@@ -26,7 +26,12 @@ def eval_facts(ctx, names):
     ok = True
     for n in names:
         r = ans["results"].get(n, dict(ok=False, detail="missing"))
-        ok = ctx.closed(n, r["ok"], detail=r["detail"], seconds=dt / len(names), witness=dict(closed_fact=n)) and ok
+        wit = dict(closed_fact=n)
+        if not r["ok"]:
+            # a closed fact has no free input: its (re-runnable) evaluation on the real modules IS the failing execution
+            wit["concrete"] = dict(found=True, function=f"eval:{n}", family="eval", input=dict(eval_fact=n), tried=1,
+                                   why="closed fact evaluated on the real modules is false", observed=str(r.get("detail"))[:400])
+        ok = ctx.closed(n, r["ok"], detail=r["detail"], seconds=dt / len(names), witness=wit) and ok
     ctx.trust("closed-term facts are decided by one execution under the repository's CPython (eval back end)")
     return ok
 
